@@ -47,6 +47,10 @@ Definition clean_status (v : status_in) : res (str * Z) :=
 Inductive item := IStr (s : str) | IBytes (b : bytes).
 Definition encode_item (i : item) : bytes := match i with IStr s => utf8_encode s | IBytes b => b end.
 
+(* an entry of Response._on_close: a callback registered by the application, or the close of the iterable that
+   make_sequence consumed *)
+Inductive cbk := CbUser (id : nat) | CbWrapped.
+
 Record resp := {
   r_headers : headers;
   r_code : Z;               (* status_code *)
@@ -56,8 +60,8 @@ Record resp := {
   r_closable : bool;        (* self.response has a close attribute *)
   r_passthrough : bool;     (* direct_passthrough *)
   r_auto_cl : bool;         (* automatically_set_content_length *)
-  r_ncb : nat;              (* callbacks registered with call_on_close *)
-  r_wrapped_cb : bool       (* make_sequence registered the consumed iterable's close as a callback *)
+  r_autocorrect : bool;     (* autocorrect_location_header *)
+  r_callbacks : list cbk    (* self._on_close, in registration order *)
 }.
 
 Definition body_bytes (r : resp) : bytes := flat_map encode_item (r_body r).
@@ -67,8 +71,8 @@ Definition make_sequence (r : resp) : resp :=
   if r_is_seq r then r
   else {| r_headers := r_headers r; r_code := r_code r; r_line := r_line r;
           r_body := map (fun i => IBytes (encode_item i)) (r_body r); r_is_seq := true; r_closable := false;
-          r_passthrough := r_passthrough r; r_auto_cl := r_auto_cl r; r_ncb := r_ncb r;
-          r_wrapped_cb := r_wrapped_cb r || r_closable r |}.
+          r_passthrough := r_passthrough r; r_auto_cl := r_auto_cl r; r_autocorrect := r_autocorrect r;
+          r_callbacks := r_callbacks r ++ (if r_closable r then [CbWrapped] else []) |}.
 
 (* ================================================================== get_wsgi_headers *)
 Definition LOCATION : str := [76; 111; 99; 97; 116; 105; 111; 110].
@@ -83,8 +87,16 @@ Definition entity_keep (key : str) : bool :=
   negb (smem (lower key) entity_headers) || smem (lower key) entity_allowed.
 
 Section Wsgi.
-  (* urls.iri_to_uri: a parameter (contract of C15: the result is ASCII) *)
+  (* urls.iri_to_uri: a parameter (contract: the result is ASCII; its percent-encoding part is C15_uri_ascii, the
+     IDNA host part is CPython's codec) *)
   Variable iri : str -> str.
+  (* urllib.parse.urljoin and wsgi.get_current_url(environ, strip_querystring=True): parameters *)
+  Variable join_url : str -> str -> str.
+  Variable current_url : str.
+
+  (* the Location handed to the server *)
+  Definition location_final (r : resp) (loc : str) : str :=
+    if r_autocorrect r then join_url (iri current_url) (iri loc) else iri loc.
 
   Definition opt_set (h : headers) (name : str) (v : option str) (f : str -> str) : hstat :=
     match v with
@@ -98,7 +110,7 @@ Section Wsgi.
       let content_location := last_value h0 CONTENT_LOCATION in
       let content_length := last_value h0 CONTENT_LENGTH in
       let status := r_code r in
-      hseq (opt_set h0 LOCATION location iri) (fun h1 =>
+      hseq (opt_set h0 LOCATION location (location_final r)) (fun h1 =>
       hseq (opt_set h1 CONTENT_LOCATION content_location iri) (fun h2 =>
       hseq (if wsgi_strip_cl status then (hd_del_key h2 CONTENT_LENGTH, None)
             else if wsgi_strip_entity status
@@ -117,30 +129,34 @@ Section Wsgi.
   Definition ci_callbacks (iterable_has_close : bool) : list act :=
     (if iterable_has_close then [AIterableClose] else []) ++ [AResponseClose].
 
-  (* counters: how often the wrapped iterable's close ran, how often each registered callback ran *)
-  Record counts := { c_wrapped : nat; c_callbacks : nat }.
-  Definition run_act (r : resp) (c : counts) (a : act) : counts :=
+  (* what happens, in order *)
+  Inductive event :=
+  | EIterClose            (* the _iter_encoded generator is closed (not the wrapped iterable) *)
+  | EWrapped              (* the wrapped iterable's own close() *)
+  | EUser (id : nat).     (* a callback registered with call_on_close *)
+
+  (* Response.close: the wrapped iterable's close if it has one, then every entry of _on_close in order *)
+  Definition response_close (r : resp) : list event :=
+    (if r_closable r then [EWrapped] else [])
+    ++ map (fun c => match c with CbUser i => EUser i | CbWrapped => EWrapped end) (r_callbacks r).
+  Definition run_act (r : resp) (a : act) : list event :=
     match a with
-    | AIterableClose => c        (* closes the _iter_encoded generator, not the wrapped iterable *)
-    | AResponseClose =>           (* Response.close: the wrapped iterable's close if any, then every callback *)
-        {| c_wrapped := c_wrapped c + (if r_closable r then 1 else 0) + (if r_wrapped_cb r then 1 else 0);
-           c_callbacks := c_callbacks c + 1 |}
+    | AIterableClose => [EIterClose]
+    | AResponseClose => response_close r
     end.
 
-  Record served := { s_chunks : list item; s_counts : counts }.
+  Record served := { s_chunks : list item; s_trace : list event }.
 
   (* the server iterates the returned iterable to the end, then calls its close() if it has one *)
   Definition serve (r : resp) (is_head : bool) : served :=
-    let zero := {| c_wrapped := 0; c_callbacks := 0 |} in
     match app_iter_kind is_head (r_code r) (r_passthrough r) with
     | AIEmptyClosing =>
-        {| s_chunks := []; s_counts := fold_left (run_act r) (ci_callbacks false) zero |}
+        {| s_chunks := []; s_trace := flat_map (run_act r) (ci_callbacks false) |}
     | AIPassthrough =>
-        {| s_chunks := r_body r;
-           s_counts := {| c_wrapped := if r_closable r then 1 else 0; c_callbacks := 0 |} |}
+        {| s_chunks := r_body r; s_trace := if r_closable r then [EWrapped] else [] |}
     | AIEncodedClosing =>
         {| s_chunks := map (fun i => IBytes (encode_item i)) (r_body r);
-           s_counts := fold_left (run_act r) (ci_callbacks true) zero |}
+           s_trace := flat_map (run_act r) (ci_callbacks true) |}
     end.
 
   (* get_wsgi_response followed by the server's iteration and close *)
